@@ -30,6 +30,19 @@ val find_define_component : node list -> coq_N option
 
 val post_import : node -> st -> st
 
+val visit_list_with :
+  (bool -> node -> st -> node * st) -> bool -> node list -> st -> node
+  list * st
+
+val visit_jsx_list_with :
+  (bool -> node -> st -> node * st) -> node list -> st -> node list * st
+
+val visit_stmts_with :
+  (bool -> node -> st -> node * st) -> node list -> st -> node list * st
+
+val visit_switch_fields_with :
+  (bool -> node -> st -> node * st) -> node list -> st -> node list * st
+
 val visit :
   env -> (node -> st -> node * st) -> (node -> st -> node * st) -> (node ->
   st -> st) -> bool -> node -> st -> node * st
